@@ -16,6 +16,9 @@ def jobs(fam, tier):
     if fam == 'm1':
         for row in S.matrix1_rows(tier):
             out += mk('*', S.matrix1_id(*row), S.matrix1(*row))
+    elif fam == 'm3':
+        for i in S.matrix3_rows(tier):
+            out += mk('*', f'm3/{i}', S.seq_program(i, ('d1',) if tier == 'quick' else ('d1', 'd2', 't1')))
     elif fam == 'm2':
         for row in S.matrix2_rows(tier):
             out += mk('*', S.matrix2_id(*row), S.matrix2(*row))
